@@ -25,6 +25,9 @@ def body_ctag_step(c0, c1, c2, target, body, hist):
     ok = ok and f["ctag_restart"] == f["ctag1"]
     ok = ok and ((f["ctag1"] != f["ctag0"]) == changed)
     ok = ok and f["other_same"]
+    # a request that was not answered with success (whatever the specification expected) leaves the tag alone
+    if f["outcome"] != "ok":
+        ok = ok and f["ctag1"] == f["ctag0"]
     # the views a client sees all read this tag
     import xandikos.web as Wb
     col = Wb.StoreBasedCollection(None, "/col", f["store"])
